@@ -143,7 +143,7 @@ class SimDevice(object):
         return t
 
     def send_cnxn(self):
-        self.send(A_CNXN, 0x01000000, self.cfg.get("maxdata", 4096), self.cfg.get("banner", b"device::sim"))
+        self.send(A_CNXN, self.cfg.get("version", 0x01000000), self.cfg.get("maxdata", 4096), self.cfg.get("banner", b"device::sim"))
 
     def challenge(self):
         auth = self.cfg["auth"]
